@@ -2,7 +2,7 @@
    Model: model/M_Frames.v (journal of the ethermint state DB, frames of the EVM); method tables of both
    precompile contracts: gen/Gen_Precompiles.v (regenerated from the source on every run). *)
 From Coq Require Import ZArith List String Bool.
-From FxV Require Import gen.Gen_Precompiles model.M_Frames proofs.P_Frames proofs.P_PrecompileTable.
+From FxV Require Import gen.Gen_Precompiles model.M_Frames model.M_FramesRev proofs.P_Frames proofs.P_FramesRev proofs.P_PrecompileTable.
 Import ListNotations.
 Open Scope Z_scope.
 
@@ -113,3 +113,51 @@ Theorem C09_frames_nonvacuous :
   s_nat (fst (m_run_impl ex_mixed Revert)) = [] /\ snd (m_run_impl ex_mixed Revert) = false.
 Proof. exact frames_nonvacuous. Qed.
 Print Assumptions C09_frames_nonvacuous.
+
+(* ---- the real revision bookkeeping of Snapshot / RevertToSnapshot (model/M_FramesRev.v) ----
+   run_impl_r keeps validRevisions and nextRevisionID as statedb.go does: a returning frame leaves its revision on
+   the stack, a reverting frame looks its id up (sort.Search), replays the journal down to the recorded index and
+   truncates the stack. For EVERY tree (well-formed or not) and every keeper semantics it publishes exactly what the
+   journal-length machine of M_Frames publishes: the abstraction "snapshot = journal length" loses nothing. *)
+Theorem C09_revisions_refine_journal_length : forall (N eff : Type) (apply : eff -> N -> N * status) body en s,
+  run_impl_r N eff apply body en s = run_impl N eff apply body en s.
+Proof. exact revisions_refine_journal_length. Qed.
+Print Assumptions C09_revisions_refine_journal_length.
+
+(* hence the main refinement holds for the machine WITH the revision stack *)
+Theorem C09_revision_machine_refines_spec : forall (N eff : Type) (apply : eff -> N -> N * status) body en s,
+  wf_fl eff body = true ->
+  let '(si, oki) := run_impl_r N eff apply body en s in
+  let '(ss, oks) := run_spec N eff apply body en s in
+  oki = oks /\ s_nat si = s_nat ss /\ s_logs si = s_logs ss /\ s_evs si = s_evs ss /\
+  (forall k, s_stor si k = s_stor ss k).
+Proof. exact revision_machine_refines_spec. Qed.
+Print Assumptions C09_revision_machine_refines_spec.
+
+(* RevertToSnapshot's panic("revision id %v cannot be reverted") is unreachable: whatever a frame's body did
+   (any depth, any number of successful children whose revisions stay on the stack), the frame's own id is found,
+   at the index where the stack it was entered with ends, with the journal index recorded at entry; and the ids on
+   the stack stay strictly increasing (the precondition under which sort.Search's binary search is the first-index
+   search rsearch of the model) *)
+Theorem C09_revert_finds_own_revision : forall (N eff : Type) (apply : eff -> N -> N * status)
+  (body : nodes eff) s (jr : list (jentry N)) vr nx lo s1 jr1 vr1 nx1 r,
+  rsorted lo vr nx ->
+  exec_list_r N eff apply body (s, jr, (vr ++ [(nx, List.length jr)])%list, S nx) = ((s1, jr1, vr1, nx1), r) ->
+  revert_r N nx s1 jr1 vr1 = (let '(s', jr') := revert_to N (List.length jr) s1 jr1 in Some (s', jr', vr)) /\
+  rsorted lo vr1 nx1.
+Proof. exact revert_finds_own_revision. Qed.
+Print Assumptions C09_revert_finds_own_revision.
+
+(* the stack really grows along successful frames (ids 1,2 stay above 0), a revert under them empties it down to the
+   entry stack, ids are never reused (3 after 0,1,2 were discarded), and a foreign id is refused (the panic branch) *)
+Theorem C09_revisions_nonvacuous :
+  (let '((_, _, vr, nx), r) := exec_list_r mstore meff mapply ex_rev (st0, [], [], 0%nat) in (vr, nx, r))
+    = ([(3, 0)], 4, Go)%nat /\
+  (let '((_, _, vr, nx), r) :=
+     exec_list_r mstore meff mapply
+       (ncons (Frame (ncons (Write 1 1) nnil) Return false) (ncons (Frame (ncons (Write 2 2) nnil) Return false) nnil))
+       (st0, [], [(0, 0)%nat], 1%nat) in (vr, nx, r))
+    = ([(0, 0); (1, 0); (2, 1)], 3, Go)%nat /\
+  revert_r mstore 1 st0 [] [(0, 0); (2, 0)]%nat = None.
+Proof. exact revisions_nonvacuous. Qed.
+Print Assumptions C09_revisions_nonvacuous.
